@@ -776,6 +776,12 @@ func (nf *nilFacts) nonNil(v ssa.Value, at ssa.Instruction, depth int) (bool, st
 		}
 	case *ssa.Const:
 		return !x.IsNil(), "nil constant"
+	case *ssa.UnOp:
+		// a package-level map made by its initialiser (literal or make) and assigned nowhere else in
+		// the module holds that map for the life of the program
+		if g, ok := x.X.(*ssa.Global); ok && x.Op == token.MUL && globalHoldsInitMap(nf.e.p, g) {
+			return true, ""
+		}
 	case *ssa.Parameter:
 		if nf.ctx[paramIndex(x)][""] {
 			return true, ""
@@ -1044,4 +1050,36 @@ func (nf *nilFacts) pathNonNil(root ssa.Value, ps string, at ssa.Instruction) bo
 		}
 	}
 	return false
+}
+
+// globalHoldsInitMap: g is a module variable whose only store in the whole module is the one in its
+// package initialiser, and that store's value is a freshly made map.
+func globalHoldsInitMap(p *core.Program, g *ssa.Global) bool {
+	if g.Pkg == nil || g.Pkg != p.Lib && g.Pkg != p.Cmd {
+		return false
+	}
+	initFn := core.PackageInit(g.Pkg)
+	n, fresh, elsewhere := 0, false, false
+	for _, fn := range p.ModuleFuncs() {
+		core.Instrs(fn, func(in ssa.Instruction) {
+			if st, ok := in.(*ssa.Store); ok && st.Addr == ssa.Value(g) {
+				if fn != initFn {
+					elsewhere = true
+					return
+				}
+				n++
+				_, fresh = core.StripType(st.Val).(*ssa.MakeMap)
+				return
+			}
+			if _, isLoad := in.(*ssa.UnOp); isLoad {
+				return
+			}
+			for _, op := range in.Operands(nil) {
+				if op != nil && *op == ssa.Value(g) {
+					elsewhere = true // address taken: somebody else may assign it
+				}
+			}
+		})
+	}
+	return n == 1 && fresh && !elsewhere
 }
